@@ -35,6 +35,7 @@ type c13srv struct {
 	resumed     int
 	hellos      int
 	closing     bool
+	smFirstOnly bool // stream management is advertised on the first connection only (a server restarted without the module)
 }
 
 func (s *c13srv) listen() error {
@@ -79,7 +80,10 @@ func (s *c13srv) handle(c net.Conn, kind string) {
 		return
 	}
 	smbit := "0"
-	if s.sm {
+	s.mu.Lock()
+	nth := s.conns
+	s.mu.Unlock()
+	if s.sm && !(s.smFirstOnly && nth > 1) {
 		smbit = "1"
 	}
 	sc := happy(s.tls, false, s.sm).with("smid", hx("sm-c13"))
@@ -123,8 +127,8 @@ func (s *c13srv) handle(c net.Conn, kind string) {
 			s.mu.Unlock()
 		case k == "enable":
 			done = true
-		case k == "bind" && !s.sm:
-			done = true
+		case k == "bind" && smbit == "0":
+			done = true // no stream management on this connection: the session is there once the resource is bound
 		}
 		if done && kind == "o" {
 			signalled = true
@@ -193,7 +197,9 @@ func c13runKA(ka time.Duration, sm, useTLS bool, first, lives string) string {
 	}
 	addr := ln.Addr().String()
 	ln.Close()
-	srv := &c13srv{addr: addr, sm: sm, tls: useTLS, established: make(chan net.Conn, 16), failedTry: make(chan string, 64)}
+	smFirstOnly := strings.HasPrefix(lives, "smonce!")
+	lives = strings.TrimPrefix(lives, "smonce!")
+	srv := &c13srv{addr: addr, sm: sm, tls: useTLS, smFirstOnly: smFirstOnly, established: make(chan net.Conn, 16), failedTry: make(chan string, 64)}
 	if err := srv.listen(); err != nil {
 		return "listen-failed"
 	}
@@ -484,6 +490,10 @@ func (c13) Generate(rng *rand.Rand, tier string, st *Stats) []Case {
 	mk(true, "o", "drop:o;drop:o")   // resumed sessions
 	mk(true, "o", "drop:r,o;drop:o") // the application sends while the connection is down, then the session is resumed
 	mk(true, "o", "graceful:r,r,o")
+	// the server comes back WITHOUT stream management (advertised on the first connection only): the features of the
+	// earlier connection are gone - no resumption is asked for, a session is bound afresh, once per loss
+	mk(true, "o", "smonce!drop:o;drop:o")
+	mk(true, "o", "smonce!graceful:t,o")
 	mk(true, "o", "wfail:o;drop:o")  // a loss seen by a failed <a/> write: one new session, the old receiver is gone
 	mk(false, "o", "wfail:t,o;wfail:o")
 	// Stop while the manager is retrying (connections refused): Stop returns, Run returns
